@@ -4,7 +4,7 @@
    stack beneath it.  Stage 1: every construct except Conditional, on programs that contain no
    Delegate instruction (all easy leaves next to hard constructs are literals). *)
 From FR Require Import Base State Utf8 Utf8Facts Chars Ast Analyze Sem ExprLemmas SemSound GoBack
-                       Vm Compile StateRefine VmRefine SemK Det Machine.
+                       Vm Compile StateRefine VmRefine SemK Scope Det Machine.
 From Coq Require Import Lia NArith.
 
 Section CC.
@@ -46,8 +46,6 @@ Qed.
 Lemma At_nil pc : At pc []. Proof. intros k i H. destruct k; discriminate. Qed.
 
 (* the Delegate instructions the theorem covers: deterministic, capture-free blocks (Proofs/Det.v) *)
-Definition okinsn (i : insn) : bool :=
-  match i with IDelegate es sg eg => forallb det es && (eg =? sg) | _ => true end.
 Definition okdeleg (code : list insn) : Prop := forallb okinsn code = true.
 (* the stage-1 class: no Delegate instruction at all *)
 Definition is_deleg (i : insn) : bool := match i with IDelegate _ _ _ => true | _ => false end.
